@@ -40,6 +40,7 @@ type item struct {
 	want    string // snapshot of an independent decoding of a pristine copy
 	class   string
 	release string // now | reads:<k> | end
+	byXid   bool   // no room for the nonce option: the transaction id carries the nonce (high bit set)
 }
 
 type hrec struct {
@@ -109,6 +110,9 @@ func genItems(rng *rand.Rand, v6 bool) []item {
 		mode, n = "hold", 130+rng.IntN(120)
 	}
 	var items []item
+	var lastXid6 *dhcpv6.TransactionID
+	var lastXid4 *dhcpv4.TransactionID
+	var lastFrom *net.UDPAddr
 	for i := 0; i < n; i++ {
 		it := item{from: sender(rng, v6), nonce: i + 1, release: releasePlan(rng)}
 		var nb [4]byte
@@ -126,6 +130,14 @@ func genItems(rng *rand.Rand, v6 bool) []item {
 				g := gen6.New(rng, func(c int) bool { _, ok := typed[c]; return ok })
 				g.Budget = 2 + rng.IntN(10)
 				m, _ := g.Message(6, 0)
+				if lastXid6 != nil && rng.IntN(4) == 0 {
+					// a retransmission or a second message of one transaction: same sender, same transaction id as the
+					// previous valid message (whose handler may still be running); it is a datagram like any other
+					m.TransactionID = *lastXid6
+					it.from = lastFrom
+				}
+				x := m.TransactionID
+				lastXid6, lastFrom = &x, it.from
 				m.AddOption(&dhcpv6.OptionGeneric{OptionCode: 65001, OptionData: nb[:]})
 				b := m.ToBytes()
 				for k := rng.IntN(5); k > 0; k-- { // relay nesting 0..4
@@ -152,8 +164,31 @@ func genItems(rng *rand.Rand, v6 bool) []item {
 			}
 		} else {
 			switch {
+			case kind < 1 && rng.IntN(2) == 0:
+				// the shortest well-formed packet: BOOTP header and magic cookie, empty options area (240 octets); or the
+				// same with an End option, or with a few options and no padding up to 300 octets
+				w, _ := gen4.WirePacket(rng, -1)
+				switch rng.IntN(3) {
+				case 1:
+					w = append(w, 255)
+				case 2:
+					w = append(w, 53, 1, byte(1+rng.UintN(8)), 255)
+				}
+				binary.BigEndian.PutUint32(w[4:8], uint32(it.nonce)|0x80000000)
+				it.b, it.class, it.byXid = w, "valid-short", true
+			case kind < 2 && rng.IntN(2) == 0:
+				// wire bytes written by hand: unsorted, split, padded options, any hlen, trailing bytes after End
+				w, _ := gen4.WirePacket(rng, 4)
+				binary.BigEndian.PutUint32(w[4:8], uint32(it.nonce)|0x80000000)
+				it.b, it.class, it.byXid = w, "valid-wire", true
 			case kind < 6:
 				p, _ := gen4.Packet(rng, 5)
+				if lastXid4 != nil && rng.IntN(4) == 0 { // retransmission: same sender and transaction id as the previous valid message
+					p.TransactionID = *lastXid4
+					it.from = lastFrom
+				}
+				x := p.TransactionID
+				lastXid4, lastFrom = &x, it.from
 				p.Options[224] = nb[:]
 				for c, v := range p.Options {
 					if len(v) > 300 {
@@ -176,8 +211,10 @@ func genItems(rng *rand.Rand, v6 bool) []item {
 			}
 			if p, ok, _ := ref4.Decode(it.b); ok {
 				it.valid, it.want = true, p.Canon()
-				if v := p.Opts[224]; len(v) == 4 {
+				if v := p.Opts[224]; len(v) == 4 && !it.byXid {
 					it.nonce = int(binary.BigEndian.Uint32(v))
+				} else if it.byXid && len(p.Opts[224]) == 0 {
+					// identified by its transaction id
 				} else {
 					i-- // a perturbed packet that stayed valid but carries no nonce cannot be identified: not used
 					continue
@@ -341,6 +378,8 @@ func runCase(r *mon.Rec, famName string, idx int) {
 			nonce := 0
 			if v := m.Options.Get(dhcpv4.GenericOptionCode(224)); len(v) == 4 {
 				nonce = int(binary.BigEndian.Uint32(v))
+			} else if x := binary.BigEndian.Uint32(m.TransactionID[:]); x&0x80000000 != 0 && len(v) == 0 {
+				nonce = int(x & 0x7fffffff)
 			}
 			enter(nonce, peer, func() string {
 				e, _ := proj.P4(m)
